@@ -43,6 +43,7 @@ pub fn shell_instr(i: &Instr) -> String
         Instr::FailIf { flag } => format!("test ! -e {}", flag),
         Instr::FailOn { src, content } => format!("c=$(cat {}) && test \"$c\" != '{}'", src, content),
         Instr::Nop { .. } => "true".to_string(),
+        Instr::Noise { err, out } => format!("{{ head -c {} /dev/zero | tr '\\0' e >&2; head -c {} /dev/zero | tr '\\0' o; }}", err, out),
         Instr::DieIf { flag, how } => format!("{{ test ! -e {} || {}; }}", flag, match how { 0 => "exit 3", 1 => "kill -9 $$", 2 => "kill -15 $$", _ => "kill -1 $$" }),
     }
 }
